@@ -7,9 +7,11 @@
  *          value of variable x_i, and every query goes through the const lp_value_t* the assignment hands out
  *   p_k    polyio.h polynomials over x0..x5 (assigned) and possibly x6 (never assigned; root isolation only)
  *   op     cmp:i:j  cz:i:<int>  cq:i:<n>/<d>  cd:i:<a>/<k>  sg:i  fl:i  ce:i  ii:i  db:i  rf:i:<k>  ha:i:<prec>  mi:i
- *          add:d:i:j  sub:d:i:j  mul:d:i:j  neg:d:i  cp:d:i  rc:i  ps:k  pe:k  pr:k
+ *          add:d:i:j  sub:d:i:j  mul:d:i:j  div:d:i:j  neg:d:i  inv:d:i  cp:d:i  rc:i  ps:k  pe:k  pr:k
  *
- * output (one line):  for every step   <obs...> | <rep0..rep5> | <battery: 45 tokens> | <rep0..rep5>
+ * output (one line):  init | <rep0..rep5> | <floor, ceiling of 6 UNTOUCHED copies of the starting pool>
+ *                     for every step   # <obs...> | <rep0..rep5> | <battery: 45 tokens> | <rep0..rep5>
+ *                     $ <floor, ceiling of the untouched copies again>      (they are never used in between)
  *   obs      cmp/cz/cq/cd/sg: sign; fl/ce: integer; ii: 0/1; db: the double as an exact rational q:n/d; rf: -;
  *            ha: the size_t; mi: d:a/k or -; add/sub/mul/neg/cp/rc: -; ps: sign; pe: value token;
  *            pr: <n> followed by n value tokens
@@ -30,6 +32,15 @@
 static lp_assignment_t* M;
 static lp_polynomial_t* P[NP];
 
+static lp_value_t U[NS];   /* copies of the starting pool made before the first query and never queried in between */
+static void print_untouched(void) {
+  for (int i = 0; i < NS; ++i) {
+    lp_integer_t z; lp_integer_construct(&z);
+    lp_value_floor(&U[i], &z); putchar(' '); print_z(&z);
+    lp_value_ceiling(&U[i], &z); putchar(' '); print_z(&z);
+    lp_integer_destruct(&z);
+  }
+}
 static const lp_value_t* S(int i) { return lp_assignment_get_value(M, pio_x[i]); }
 
 /* raw representation; the structural invariants valio.h's printer takes for granted are checked first */
@@ -121,13 +132,16 @@ static void do_op(char* tok) {
     } else putchar('-');
     return;
   }
-  if (strcmp(op, "add") == 0 || strcmp(op, "sub") == 0 || strcmp(op, "mul") == 0) {
+  if (strcmp(op, "add") == 0 || strcmp(op, "sub") == 0 || strcmp(op, "mul") == 0 || strcmp(op, "div") == 0) {
     int a = atoi(f[2]), b = atoi(f[3]); lp_value_t r; lp_value_construct_none(&r);
-    if (op[0] == 'a') lp_value_add(&r, S(a), S(b)); else if (op[0] == 's') lp_value_sub(&r, S(a), S(b)); else lp_value_mul(&r, S(a), S(b));
+    if (op[0] == 'a') lp_value_add(&r, S(a), S(b)); else if (op[0] == 's') lp_value_sub(&r, S(a), S(b));
+    else if (op[0] == 'm') lp_value_mul(&r, S(a), S(b)); else lp_value_div(&r, S(a), S(b));
     set_slot(i, &r); lp_value_destruct(&r); putchar('-'); return;
   }
-  if (strcmp(op, "neg") == 0) {
-    lp_value_t r; lp_value_construct_none(&r); lp_value_neg(&r, S(atoi(f[2]))); set_slot(i, &r); lp_value_destruct(&r); putchar('-'); return;
+  if (strcmp(op, "neg") == 0 || strcmp(op, "inv") == 0) {
+    lp_value_t r; lp_value_construct_none(&r);
+    if (op[0] == 'n') lp_value_neg(&r, S(atoi(f[2]))); else lp_value_inv(&r, S(atoi(f[2])));
+    set_slot(i, &r); lp_value_destruct(&r); putchar('-'); return;
   }
   if (strcmp(op, "cp") == 0) {
     lp_value_t t; lp_value_construct_copy(&t, S(atoi(f[2]))); set_slot(i, &t); lp_value_destruct(&t); putchar('-'); return;
@@ -159,8 +173,10 @@ static void run_case(void) {
     set_slot(i, &v); lp_value_destruct(&v);
   }
   for (int k = 0; k < NP; ++k) P[k] = pio_new(vtok[2 + NS + k]);
+  for (int i = 0; i < NS; ++i) lp_value_construct_copy(&U[i], S(i));
   bad_rep = 0;
   printf("init |"); print_reps();
+  printf(" |"); print_untouched();
   int step = 0;
   for (int t = 3 + NS + NP; t < vntok; ++t, ++step) {
     printf(" #");
@@ -171,6 +187,8 @@ static void run_case(void) {
     printf(" |"); print_reps();
     if (bad_rep) { printf(" ABORT"); break; }
   }
+  if (!bad_rep) { printf(" $"); print_untouched(); }
+  for (int i = 0; i < NS; ++i) lp_value_destruct(&U[i]);
   for (int k = 0; k < NP; ++k) lp_polynomial_delete(P[k]);
   lp_assignment_delete(M);
   /* everything of this case has been released: what is still allocated and unreachable was leaked by the library
